@@ -38,6 +38,7 @@ func runC17(c *core.Ctx) {
 	if h.voteSanity("C17.vote-engine", vt) {
 		c.Clause("C17.1 leader-known refusal: no transfer flag, leader known, requester is not the leader => no vote, no term change (E3)")
 		h.voteStability("C17.1 leader-known-refusal", vt)
+		h.voteRefusalJustified("C17.1b refusal-justified", vt)
 	}
 	c.Clause("C17.2 a vote reply resets the election timer only when the vote was granted")
 	h.resetTimerOnlyOnGrant("C17.2 reset-timer")
@@ -46,4 +47,9 @@ func runC17(c *core.Ctx) {
 	c.Clause("C17.4 (necessary condition of catch-up only, not liveness) a rejected probe strictly lowers nextIndex; a compacted entry leads to snapshot installation")
 	h.probeBackoffProgress("C17.4 probe-backoff")
 	h.snapshotFallback("C17.4b snapshot-fallback")
+	h.campaignProgress("C17.5 campaign-progress")
+	h.appendRefusalJustified("C17.4c append-refusal-justified")
+	h.commitThenApply("C17.6 commit-then-apply")
+	h.canCommitComplete("C17.6b canCommit-complete")
+	h.stepDownOnlyWithoutQuorum("C17.7 step-down-only-without-quorum")
 }
